@@ -503,6 +503,10 @@ func c19Negatives(c *core.Ctx) {
 		{"certificate request", gen.PEMOf("CERTIFICATE REQUEST", csr)},
 		{"DSA-like parameters", gen.PEMOf("DSA PRIVATE KEY", append([]byte{0x30, 0x20}, randBytes(32)...))},
 		{"empty PEM block", gen.PEMOf("PRIVATE KEY", nil)},
+		// the parameter block `openssl ecparam -genkey` writes in front of an EC key - without the key
+		{"EC PARAMETERS block only", gen.PEMOf("EC PARAMETERS", []byte{0x06, 0x08, 0x2a, 0x86, 0x48, 0xce, 0x3d, 0x03, 0x01, 0x07})},
+		{"EC PARAMETERS block followed by text", gen.PEMOf("EC PARAMETERS", []byte{0x06, 0x08, 0x2a, 0x86, 0x48, 0xce, 0x3d, 0x03, 0x01, 0x07}) + "no key follows\n"},
+		{"two non-key blocks", gen.PEMOf("EC PARAMETERS", []byte{0x06, 0x05, 0x2b, 0x81, 0x04, 0x00, 0x22}) + gen.PEMOf("X509 CRL", randBytes(40))},
 		{"JSON key object", `{"keytype":"ed25519","keyval":{"public":"00"}}`},
 		{"binary garbage", string(randBytes(200))},
 	}
@@ -550,7 +554,7 @@ func init() {
 	core.Register(&core.Property{
 		ID:    "C19",
 		Level: "exploration",
-		Rule: "freshly generated keys per run (quick: 2 RSA-2048, ECDSA P-224/256x2/384/521, 3 Ed25519; thorough: more, plus RSA-3072) x every PEM encoding each supports (PKCS#8, PKCS#1, SEC1, PKIX, self-signed and CA-issued certificate) x 4 loaders (the reader-based ones fed whole, byte by byte, in halves and in 100-byte pieces) x 5 decorations (plain, surrounding whitespace, CRLF, trailing PEM block, trailing text): type, default scheme, public-half string, key id (recomputed independently as SHA-256 of the reference canonical description), presence of private half / certificate, equal ids across the forms of one pair and different ids for different keys; sign with the private-loaded key, verify with public/certificate-loaded keys and with crypto/*; public-only keys must not sign; explicit scheme and hash lists (matching => reflected in id; scheme of another key type => error); re-use of one Key object for two loads must equal a fresh load; before every load an earlier default-loaded key object is modified in place by its owner (later loads must not notice); SVIDDetails.InTotoKey on generated SVID-like pairs (helper built inside the repository module through a build overlay); negatives (empty, text, truncated DER/base64, random DER under 5 labels, encrypted PKCS#8 label, CSR, DSA-like, binary) through all loaders. " +
+		Rule: "freshly generated keys per run (quick: 2 RSA-2048, ECDSA P-224/256x2/384/521, 3 Ed25519; thorough: more, plus RSA-3072) x every PEM encoding each supports (PKCS#8, PKCS#1, SEC1, PKIX, self-signed and CA-issued certificate) x 4 loaders (the reader-based ones fed whole, byte by byte, in halves and in 100-byte pieces) x 5 decorations (plain, surrounding whitespace, CRLF, trailing PEM block, trailing text): type, default scheme, public-half string, key id (recomputed independently as SHA-256 of the reference canonical description), presence of private half / certificate, equal ids across the forms of one pair and different ids for different keys; sign with the private-loaded key, verify with public/certificate-loaded keys and with crypto/*; public-only keys must not sign; explicit scheme and hash lists (matching => reflected in id; scheme of another key type => error); re-use of one Key object for two loads must equal a fresh load; before every load an earlier default-loaded key object is modified in place by its owner (later loads must not notice); SVIDDetails.InTotoKey on generated SVID-like pairs (helper built inside the repository module through a build overlay); negatives (empty, text, truncated DER/base64, random DER under 5 labels, encrypted PKCS#8 label, CSR, DSA-like, EC PARAMETERS block without a key, binary) through all loaders. " +
 			"non-trivial = a supported encoding parsed or a distinct negative class; distinct = (key kind, encoding, loader, decoration) etc.",
 		Assumptions: []string{"keys come from crypto/rand, so they differ per run; every input of a violation is saved in the replay file", "PEM input with trailing data after the first block may be accepted or refused (not judged), but never yields a wrong key", "PEM labels that contradict the DER content are not judged"},
 		Workers:     func(string) int { return 16 },
